@@ -579,8 +579,25 @@ def c10(step, res, returned_clause=True):
                 res.count('consumer_writes_judged')
                 res.seen(rn, 'consumer-rewritten')
                 if not ca['generation'] > cb['generation']:
+                    body = step.req['body'] if isinstance(
+                        step.req['body'], dict) else {}
+                    e = body if step.route == 'alloc' else (
+                        (body.get('allocations') or {}).get(c)
+                        if step.route == 'reshaper' else body.get(c))
+                    mech = ''
+                    if isinstance(e, dict) and 'consumer_generation' in e \
+                            and e['consumer_generation'] is None and \
+                            not any(a > 0 for a in pl[c].values()):
+                        # a creator (generation null) with nothing to write
+                        # that meets allocations: only possible when another
+                        # request wrote on the record this one auto-created
+                        # (known finding D22) - one after the other, null for
+                        # an existing consumer is refused
+                        mech = '|auto-created-consumer-adopted-by-other-' \
+                               'writer'
                     res.violation(
-                        'C10|consumer-written-without-generation|%s' % rn,
+                        'C10|consumer-written-without-generation|%s%s' % (
+                            rn, mech),
                         '%s wrote consumer %s, generation %d -> %d' % (
                             rn, c, cb['generation'], ca['generation']),
                         step.witness())
